@@ -158,6 +158,8 @@ pub open spec fn all_edges_seq(dag: &GraphType, s: Seq<(usize, usize, &EdgeInfo)
 }
 
 impl GraphType {
+    /// no directed cycle (the properties quantify over acyclic graphs; a precondition of event_startup)
+    pub uninterp spec fn acyclic(&self) -> bool;
     pub uninterp spec fn nodes_set(&self) -> Set<usize>;
     pub uninterp spec fn edges(&self) -> Map<(usize, usize), EdgeInfo>;
 
@@ -206,6 +208,7 @@ impl GraphType {
                 <==> (old(self).edges().contains_key((a, b)) && a != n && b != n),
             forall|a: usize, b: usize| #![trigger final(self).edges()[(a, b)]]
                 final(self).edges().contains_key((a, b)) ==> final(self).edges()[(a, b)] == old(self).edges()[(a, b)],
+            old(self).acyclic() ==> final(self).acyclic(),
     {
         unimplemented!()
     }
@@ -228,6 +231,19 @@ impl GraphType {
                 && final(self).edges() == old(self).edges().insert((a, b), *final(r.unwrap())),
             r is None ==> final(self).edges() == old(self).edges(),
             final(self).nodes_set() == old(self).nodes_set(),
+            final(self).acyclic() == old(self).acyclic(),
+    {
+        unimplemented!()
+    }
+
+    /// every node exactly once
+    #[verifier::external_body]
+    pub fn nodes(&self) -> (r: std::vec::IntoIter<usize>)
+        ensures
+            r.obeys_prophetic_iter_laws(),
+            r.decrease().is_some(),
+            r.remaining().no_duplicates(),
+            forall|m: usize| #![trigger r.remaining().contains(m)] r.remaining().contains(m) <==> self.nodes_set().contains(m),
     {
         unimplemented!()
     }
@@ -502,4 +518,59 @@ fn verif_clone_string_set(s: &HashSet<String>) -> (r: HashSet<String>)
     ensures r@ == s@,
 {
     s.clone()
+}
+
+/// petgraph::algo::toposort(&dag, None): Ok with every node exactly once iff the graph is acyclic
+/// (the order itself is not used by any contract)
+#[verifier::external_body]
+fn verif_toposort(dag: &GraphType) -> (r: Result<Vec<usize>, ()>)
+    ensures
+        r is Ok <==> dag.acyclic(),
+        r is Ok ==> r.unwrap()@.no_duplicates()
+            && forall|m: usize| #![trigger r.unwrap()@.contains(m)] r.unwrap()@.contains(m) <==> dag.nodes_set().contains(m),
+{
+    unimplemented!()
+}
+
+// ---- R6 adapter chains on node indices (A-adapters): std semantics of filter / map(|x| *x) / collect
+/// `ITER.filter(f)` as an iterator: yields exactly the elements of ITER that f accepts, in order
+#[verifier::external_body]
+fn verif_filter_iter<F: Fn(&usize) -> bool>(it: std::vec::IntoIter<usize>, f: F) -> (r: std::vec::IntoIter<usize>)
+    requires
+        forall|x: &usize| it.remaining().contains(*x) ==> #[trigger] f.requires((x,)),
+    ensures
+        r.obeys_prophetic_iter_laws(),
+        r.decrease().is_some(),
+        forall|k: int| 0 <= k < r.remaining().len() ==> it.remaining().contains(#[trigger] r.remaining()[k])
+            && f.ensures((&r.remaining()[k],), true),
+        forall|x: usize| it.remaining().contains(x) && !f.ensures((&x,), false) ==> #[trigger] r.remaining().contains(x),
+        it.remaining().no_duplicates() ==> r.remaining().no_duplicates(),
+{
+    unimplemented!()
+}
+
+/// `ITER.filter(f).collect::<HashSet<usize>>()`
+#[verifier::external_body]
+fn verif_filter_collect_set<F: Fn(&usize) -> bool>(it: std::vec::IntoIter<usize>, f: F) -> (r: HashSet<usize>)
+    requires
+        forall|x: &usize| it.remaining().contains(*x) ==> #[trigger] f.requires((x,)),
+    ensures
+        forall|x: usize| #[trigger] r@.contains(x) ==> it.remaining().contains(x) && f.ensures((&x,), true),
+        forall|x: usize| it.remaining().contains(x) && !f.ensures((&x,), false) ==> #[trigger] r@.contains(x),
+        r@.finite(),
+{
+    unimplemented!()
+}
+
+/// `SET.iter().map(|x| *x).filter(f).collect::<Vec<usize>>()`
+#[verifier::external_body]
+fn verif_set_filter_collect_vec<F: Fn(&usize) -> bool>(s: &HashSet<usize>, f: F) -> (r: Vec<usize>)
+    requires
+        forall|x: &usize| s@.contains(*x) ==> #[trigger] f.requires((x,)),
+    ensures
+        forall|k: int| 0 <= k < r@.len() ==> s@.contains(#[trigger] r@[k]) && f.ensures((&r@[k],), true),
+        forall|x: usize| s@.contains(x) && !f.ensures((&x,), false) ==> #[trigger] r@.contains(x),
+        r@.no_duplicates(),
+{
+    unimplemented!()
 }
